@@ -465,7 +465,8 @@ pub fn run(tier: Tier) -> i32 {
     let ctx = Ctx::new("C20", tier, "model_checking");
     // the whole thorough product costs ~10 s: both tiers run it
     let quick = false;
-    let thorough = !ctx.quick();
+    // (the full product costs well under a minute: the quick tier runs it too)
+    let thorough = true;
     ctx.set_rule("wire part: every protocol name both backends serve (25519 x {ChaChaPoly, AESGCM} x {SHA256, SHA512}; BLAKE2 / XChaChaPoly / P256 names through the fallback) x all 9 assignments of {Default, Fallback(Ring, Default), Fallback(Default, Ring)} to the two endpoints, session = handshake + transport traffic + synchronised rekeys + more traffic, stateful and stateless, with comfortably large buffers and (every 4th name) with output buffers of exactly the needed size plus {0,1,8,15,16,17} bytes: identical bytes to the all-default session and every step Ok; every 6th name also with ephemerals generated from a scripted random source instead of fixed ones, every 3rd with a 200-byte prologue and handshake payloads of 127..300 bytes. built-in part: DefaultResolver and RingResolver answer Some exactly for their documented primitives and what they hand out is the named primitive (name + one known answer against the reference). fallback part: complete truth table of FallbackResolver over tagged stub resolvers (16 x 16 availability masks, nesting depth 2 on either side): Some iff a member provides the primitive, and the first member's; plus every sequence of three queries of one kind on the same instance over per-choice availability masks (the answer must not depend on earlier queries)");
     fallback_table(&ctx);
     builtin_table(&ctx);
